@@ -31,6 +31,7 @@ RULE = ("histories over C16's alphabet extended with wait, add(wait=True), re-ad
         "non-trivial = at least one job handed out; distinct = distinct (op list, choice vector)")
 LEVEL_TEXT = ("Exploration: the same engine as C16; the checker compares every pull with the model's queued "
               "candidates (channel, not-done, minimal (priority, serial)), every qinfo probe with the first "
-              "recorded outcome (finality), wait releases with finish points, re-adds and per-channel counters.")
+              "recorded outcome (finality), wait releases with finish points, re-adds (also under the other channel) "
+              "and per-channel counters.")
 LEVEL_NOTE = "Same trusted base as C16; qinfo/getstats probes run through a dedicated connection in their own quantum."
 TECHNIQUE = "recorded history + executable sequential model (ordering, finality, wait-release, idempotent add, counter conservation)"
